@@ -1,5 +1,6 @@
 import Driver.Parse
 import Rio.Model.ZipHdr
+import Rio.Model.Zip
 import Rio.Model.Pack
 import Rio.Model.Warehouse
 import Rio.Model.Fetch
@@ -72,7 +73,28 @@ def filtEngine : List String → String
     | _, _ => "bad-op"
   | _ => "bad-op"
 
+/-- `name,mode,extra,sec,nsec,size,chash,body,openok,bodyok` -/
+def parseZipHdr (tok : String) : Option ZipHdr :=
+  match tok.splitOn "," with
+  | [n, mode, ex, s, ns, sz, ch, body, oo, bo] => do
+    pure { name := ← fromHex n, mode := ← mode.toNat?, extra := ← fromHex ex, mtime := ⟨← s.toInt?, ← ns.toNat?⟩,
+           size := ← sz.toInt?, chash := ← fromHex ch, body := ← fromHex body, openOk := oo = "1", bodyOk := bo = "1" }
+  | _ => none
+
+def parseZipHdrs (s : String) : Option (List ZipHdr) :=
+  if s = "-" then some [] else (s.splitOn ";").mapM parseZipHdr
+
 def unpackEngine : List String → String
+  | ["zip", f, mu, mg, readable, hs] =>
+    match parseUnpackFilter f, mu.toNat?, mg.toNat?, parseZipHdrs hs with
+    | some ff, some mu, some mg, some hdrs =>
+      match unpackZip Sha.sha384 nilOps mu mg ff hdrs (readable = "1") () with
+      | .ok (_, a, b) =>
+        let s58 (h : Bytes) := (let s := base58Encode h; if s.isEmpty then "-" else s)
+        s!"ok {s58 a} {s58 b}"
+      | .err c => "err " ++ c.tok
+      | .panic _ => "panic"
+    | _, _, _, _ => "bad-op"
   | ["tar", f, mu, mg, head, fin, hs] =>
     match parseUnpackFilter f, mu.toNat?, mg.toNat?, fromHex head, parseTarHdrs hs with
     | some ff, some mu, some mg, some head, some hdrs =>
